@@ -59,6 +59,11 @@ CHECKS = {
          "For each of the 211 example files of the 102 checkers that have examples: 9 padding declarations (func, body-less func, method, generic func, type, var block, const, control-flow func, deferred literal) appended and inserted at every gap between top-level declarations, 1 and 3 blank lines at every gap, and every permutation of the plain-function chunks (complete up to 5 functions, else rotations/reversal/adjacent swaps). Each variant is re-type-checked and analysed by its checker; the /*! */ expectations are re-read from the transformed text (they move with their chunk) and must match the produced warnings exactly; warnings located inside padding are discounted.",
          "Reordering is not applied to dupImport, typeDefFirst, commentedOutImport, codegenComment; nothing is inserted above the imports. The maintainers' expectations are the oracle, so only examples' constructs are covered.",
          "DESIGN.md section 3, C13"),
+ "C14": ("exploration",
+         "exhaustive enumeration of (parameter, value, route) and of full measure x threshold grids against the documented predicate; quoted sizes against a compiled unsafe.Sizeof program",
+         "(a) every registered parameter (14, ruleguard's are C18's) x {default, witness value} x {integrator override before NewChecker, -@c.p on go-critic and gocritic, analyzer flag on both analysis binaries} on a witness package whose diagnostics differ between the two values: each route must reproduce the integrator route's diagnostics; (b) for hugeParam (parameter and receiver), rangeValCopy, rangeExprCopy, tooManyResults, nestingReduce, ifElseChain, commentedOutCode: generated programs measuring exactly N for N in 0..40 (+ spot values up to 4096 for byte sizes) x threshold T over the same window (-1..40 + spots): reported iff documented predicate (N>=T, N>T for 'maximum'), monotone in both directions; where the usage text does not fix the unit (ifElseChain, commentedOutCode) the flip point must exist and move by exactly one per unit; (c) 44 types incl. padding, zero-size trailing fields, nested arrays/structs: hugeParam's '(N bytes)' vs unsafe.Sizeof printed by a compiled program.",
+         "The witness table is checked for completeness against the registry (a new parameter makes the check exit 2 until a witness is added).",
+         "DESIGN.md section 3, C14"),
 }
 
 PENDING = {
